@@ -1141,6 +1141,20 @@ carrier, so they — and the whole models built on them — can be run at `PyNum
 every comparison is false (Python's float comparisons).  On numbers `not (0 <= v <= 1)` and `v < 0 or v > 1` are the
 same test (`quantile_outside` holds for either); at `nan` they differ, and the property's "None outside [0, 1]" /
 "None outside the observed range" includes `nan` (it is not a member of the interval). -/
+/-- **Sixth pass (values at the numeric limit of float64): why those histories are also run at bin limit 1.**  Of three
+increasing centres inside `[lo, hi]` the closer adjacent pair is at most half the range apart.  `_trim` merges the closest
+pair of `limit + 1` bins, so at every limit ≥ 2 (three or more bins: any three consecutive ones) the difference `v2 - v1` it
+may form is at most `(hi - lo) / 2` — a finite float whenever `lo` and `hi` are.  A merged centre computed from that
+difference can overflow only when two bins are folded into one: limit 1 (`distogram/__init__.py:211-223`). -/
+theorem closest_gap_le_half_range {a b c lo hi : K} (hlo : lo ≤ a) (hab : a < b) (hbc : b < c) (hhi : c ≤ hi) :
+    min (b - a) (c - b) ≤ (hi - lo) / 2 := by
+  rcases le_total (b - a) (c - b) with h | h
+  · rw [min_eq_left h]; linarith
+  · rw [min_eq_right h]; linarith
+
+/-- the hypotheses are satisfiable and the bound is attained: centres -1, 0, 1 in [-1, 1] -/
+example : min ((0 : ℚ) - (-1)) (1 - 0) = (1 - (-1)) / 2 := by norm_num
+
 section Unordered
 variable {F : Type} [Add F] [Sub F] [Mul F] [Div F] [LT F] [LE F]
   [DecidableLT F] [DecidableLE F] [OfNat F 0] [OfNat F 1] [OfNat F 2]
